@@ -1,7 +1,7 @@
 """C16 - declared-but-unset variables; the ABSENT marker never escapes."""
 import ast
 
-from ..astq import is_name, is_self_attr, returns_of
+from ..astq import conds, facts_of, is_name, is_self_attr, returns_of
 from ..cfg import CFG
 from ..core import AnalysisError, norm, walk_local
 from ..xform import query as Q
@@ -41,7 +41,7 @@ def run(repo, chk):
 
     # the defaulting pile
     tr = repo.func("transform.transform")
-    chk.ob("R16.1", "transform.transform:globals-pile-defaults-to-ABSENT", "DictPile(glb, __builtins__, default=ABSENT)" in norm(tr.node), tr.where,
+    chk.ob("R16.1", "transform.transform:globals-pile-defaults-to-ABSENT", facts_of(tr).mentions("DictPile(glb, __builtins__, default=ABSENT)"), tr.where,
            "the globals lookup used by generated code returns ABSENT for an undefined name (source of the taint)")
 
     from .shared import dictpile_obligations
@@ -109,7 +109,7 @@ def run(repo, chk):
            "the error exposes the variable's recorded annotation and provenance")
     pi = repo.func("transform.PteraNameError.__init__")
     chk.ob("R16.2", "transform.PteraNameError:is-NameError", any(is_name(b, "NameError") for b in repo.cls("transform.PteraNameError").bases) and
-           "self.varname = varname" in norm(pi.node) and "self.function = function" in norm(pi.node), pi.where, "PteraNameError is a NameError that records variable and function")
+           facts_of(pi).has("self.varname = varname", exactly=[]) and facts_of(pi).has("self.function = function", exactly=[]), pi.where, "PteraNameError is a NameError that records variable and function")
 
     # ---------------- R16.3
     def absent_uses(fi):
@@ -143,13 +143,16 @@ def run(repo, chk):
     wi = repo.func("interpret.WorkingFrame.intercept")
     ia2 = repo.func("interpret.Interactor.interact")
     fr_uses = []
+    frd = [n for n in walk_local(ia2.node) if isinstance(n, ast.Assign) and len(n.targets) == 1 and isinstance(n.targets[0], ast.Name) and isinstance(n.value, ast.Call)
+           and isinstance(n.value.func, ast.Attribute) and n.value.func.attr == "intercept"]
+    FR = frd[0].targets[0].id if len(frd) == 1 else "<result of intercept>"
     for n in walk_local(ia2.node):
-        if isinstance(n, ast.Name) and n.id == "fr_value" and isinstance(n.ctx, ast.Load):
+        if isinstance(n, ast.Name) and n.id == FR and isinstance(n.ctx, ast.Load):
             par = n._parent
             if isinstance(par, ast.Compare) and all(isinstance(o, (ast.Is, ast.IsNot)) for o in par.ops) and any(is_name(c, "ABSENT") for c in [par.left, *par.comparators]):
                 fr_uses.append("test")
             elif isinstance(par, ast.Assign):
-                guarded = any(isinstance(a, ast.If) and "fr_value is not ABSENT" in norm(a.test) for a in _anc(par))
+                guarded = f"{FR} is not ABSENT" in conds(par, ia2.node)
                 fr_uses.append("kept" if guarded else "kept-unguarded")
             else:
                 fr_uses.append("other:" + norm(par)[:40])
@@ -158,7 +161,7 @@ def run(repo, chk):
     em = repo.func("probe.Probe._emit")
     chk.ob("R16.3", "probe.Probe._emit:returns-ABSENT-after-push", [norm(r.value) for r in returns_of(em.node)] == ["ABSENT"], em.where, "a plain probe never overrides: its emitter returns ABSENT (after pushing the event)")
     oe = repo.func("probe.OverridableProbe._emit")
-    chk.ob("R16.3", "probe.OverridableProbe._emit:ABSENT-unless-overridden", "self._value = ABSENT" in norm(oe.node) and [norm(r.value) for r in returns_of(oe.node)] == ["self._value"], oe.where,
+    chk.ob("R16.3", "probe.OverridableProbe._emit:ABSENT-unless-overridden", facts_of(oe).has("self._value = ABSENT", exactly=[]) and [norm(r.value) for r in returns_of(oe.node)] == ["self._value"], oe.where,
            "an overridable probe answers ABSENT unless a subscriber set a value during the push")
     ck = repo.func("interpret.BaseAccumulator.__check.new_fn")
     chk.ob("R16.3", "interpret.BaseAccumulator.__check:failed-check-answers-ABSENT", any(norm(r.value) == "ABSENT" for r in returns_of(ck.node)), ck.where,
